@@ -1,7 +1,7 @@
 (* Main.v — single entry point of the extracted model: one request tree in, one
    response tree out.  The OCaml driver only parses and prints trees. *)
 From Coq Require Import String List.
-From Prov Require Import Str Sexp Tables Nsm Scope Values Record World Jtree Json JsonSpec Provn ProvnSpec XmlSpec IO Dot Xml Rdf Interp.
+From Prov Require Import Str Sexp Tables Nsm Scope Values Record World Jtree Json JsonSpec Provn ProvnSpec XmlSpec IO Dot Xml Rdf Rdfq Interp.
 Import ListNotations.
 Open Scope string_scope.
 
@@ -11,6 +11,34 @@ Definition valarg_value (a : valarg) : option value :=
   | ABool b => Some (VBool b) | ATime t => Some (VTime t) | AId u => Some (VId u) | AQn q => Some (VQn q)
   | ALit l d g => Some (VLit l d g) | _ => None
   end.
+
+(* ---- wire format of the quad-level RDF model *)
+Definition px_obj (x : sexp) : option obj :=
+  match x with
+  | L [A "u"; A u] => Some (ON (NU u))
+  | L [A "l"; A t] => Some (OL t)
+  | _ => None
+  end.
+Definition px_oobj (x : sexp) : option (option obj) :=
+  match x with A "none" => Some None | y => option_map Some (px_obj y) end.
+Definition px_rattr (x : sexp) : option (string * obj) :=
+  match x with L [A a; v] => option_map (fun o => (a, o)) (px_obj v) | _ => None end.
+Definition px_rrec (x : sexp) : option rrec :=
+  match x with
+  | L [A "rel"; A k; i; L fs; L xs] =>
+      match px_list px_oobj fs, px_list px_rattr xs with
+      | Some f, Some e => Some (mkR k (match i with A "none" => None | A u => Some u | _ => None end) f e)
+      | _, _ => None
+      end
+  | _ => None
+  end.
+Definition sx_node (n : node) : sexp :=
+  match n with NU u => L [A "u"; A u] | NB k => L [A "b"; A (nat_to_str k)] end.
+Definition sx_obj (o : obj) : sexp := match o with ON n => sx_node n | OL t => L [A "l"; A t] end.
+Definition sx_rrec (r : rrec) : sexp :=
+  L [A "rel"; A (rk r); match rid r with Some u => A u | None => A "none" end;
+     L (map (fun v => match v with Some o => sx_obj o | None => A "none" end) (rf r));
+     L (map (fun a => L [A (fst a); sx_obj (snd a)]) (rx r))].
 
 Definition run (req : sexp) : sexp :=
   match req with
@@ -26,6 +54,13 @@ Definition run (req : sexp) : sexp :=
       | _, _ => A "bad-request"
       end
   | L [A "rdfpred"; A k; A attr] => L [A (enc_pred k attr); A (dec_pred k (enc_pred k attr))]
+  | L (A "rdfq" :: rels) =>
+      match px_list px_rrec rels with
+      | Some rs =>
+          let g := enc_all 0 rs [] in
+          L [L (map (fun t => L [sx_node (ts t); A (tp t); sx_obj (tobj t)]) g); L (map sx_rrec (dec g))]
+      | None => A "bad-request"
+      end
   | L [A "dotquote"; A s] => L [A (dot_quote s); A (html_escape s)]
   | L [A "destpath"; A name] =>
       match dest_path name with Some p => L [A "some"; A p] | None => L [A "none"] end
